@@ -52,10 +52,12 @@ theorem dominatedIn_sound (p : Program) (m : Mode) (h : DominatedIn m p = true) 
     have := (List.all_eq_true.mp hE) f (List.mem_range.mpr (fn?_lt hf))
     simpa [hf, he] using this
   have hmem : f ∈ safeSet m p := by simpa using hin
-  have hb : (chk m (safeSet m p) fn.assume fn.body (some [])).1 = true := by
+  have hb : ∃ σ', chk m (safeSet m p) fn.assume fn.body (some []) = some σ' := by
     have := (List.all_eq_true.mp hS) f hmem
-    simpa [checkFn, hf] using this
-  exact (chk_sound hm hS hE hx fn.assume [] hρ (Facts.holds_nil ρ) hb).1
+    simp only [checkFn, hf] at this
+    exact Option.isSome_iff_exists.mp this
+  obtain ⟨σ', hb⟩ := hb
+  exact (chk_sound hm hS hE hx fn.assume [] σ' hρ (Facts.holds_nil ρ) hb).1
 
 /-- **Soundness of `Dominated`.**  For every program the checker accepts: an exported callback invoked in a
 read-only context (`q` = `ctx.isQuery`, `v` = `ctx.nestedView > 0`, at least one set), along any path, with
@@ -100,7 +102,7 @@ theorem all_callbacks_ok : Dominated Gen.HostApi.program = true := by decide +ke
 /-- The extraction left nothing unclassified and met no control flow outside its subset (`goto`, labels,
 `continue` inside `switch`): such sites are emitted as `mut` sinks *and* listed here. -/
 theorem extraction_complete :
-    Gen.HostApi.unknownSinks = [] ∧ Gen.HostApi.unsupported = [] := by decide
+    Gen.HostApi.unknownSinks = [] ∧ Gen.HostApi.unsupported = [] := ⟨rfl, rfl⟩
 
 /-- **C20 for one invocation.**  In the current tree, a host callback running in a read-only context never
 performs a state-mutating operation, on any path; under `isQuery` it never opens a writable SQL transaction
@@ -147,18 +149,17 @@ theorem readonly_session_no_mutation (q v : Bool) (hro : (q || v) = true) (calls
   obtain ⟨c, _, hc⟩ := List.mem_flatMap.mp he
   exact readonly_no_mutation q v hro c.f c.fn c.hf c.hexp c.ρ c.hρ c.tr c.o c.hx e hc
 
-/-- Non-vacuity of `readonly_no_mutation` (test): `luaSetDB` is entry 0 of the generated program, is
-exported, and has a read-only execution (the guard's early return) — `program.fn? 0` is inspected by name. -/
-example : (Gen.HostApi.program.index? "luaSetDB").isSome = true ∧
-    (Gen.HostApi.program.verdict "luaSetDB" = "guarded") := by decide +kernel
+/-- Non-vacuity of `readonly_no_mutation` (test): the generated program has an exported `luaSetDB`
+(its verdict `guarded` is part of `callback_verdicts`). -/
+example : (Gen.HostApi.program.fns.find? (·.name == "luaSetDB")).map (·.exported) = some true := by
+  decide +kernel
 
 /-! ## Guards conjoined with another condition, and the assumptions they need -/
 
 /-- The only guard that is conjoined with another condition is `luaSendAmount`'s (`… && amount > 0`). -/
 theorem guard_when_sites :
     Gen.HostApi.guardWhen =
-      [("luaSendAmount", "(ctx.isQuery == true || ctx.nestedView > 0) && amountBig.Cmp(zeroBig) > 0")] := by
-  decide
+      [("luaSendAmount", "(ctx.isQuery == true || ctx.nestedView > 0) && amountBig.Cmp(zeroBig) > 0")] := rfl
 
 /-- The assumptions `readonly_no_mutation` makes about condition atoms, all of them: in `luaSendAmount`,
 `amountBig.Cmp(zeroBig) > 0 ∨ amountBig.Cmp(zeroBig) == 0`, i.e. the amount is not negative.
@@ -187,7 +188,7 @@ theorem view_writers :
     Gen.HostApi.program.sitesOf (fun k => k == .viewInc || k == .viewDec) =
       [("luaViewStart", "nestedView++"), ("luaViewEnd", "nestedView--"),
        ("executor.call", "nestedView++"), ("executor.call", "nestedView--")] := by
-  constructor <;> decide +kernel
+  refine ⟨rfl, by decide +kernel⟩
 
 /-- Brackets: a sequence of `+1`/`-1` whose running sums never go below zero (the nested view calls made
 *inside* a view function, each `++` matched by its later `--`) keeps a counter that starts at `d ≥ 1`
@@ -209,8 +210,8 @@ example : ∀ k, 0 ≤ (([1, -1, 1, 1, -1, -1] : List Int).take k).sum := by
 theorem query_contexts :
     Gen.HostApi.queryWrites = [] ∧
     Gen.HostApi.queryCtxLits = [("NewVmContextQuery", "true")] ∧
-    Gen.HostApi.ctxBuilders = [("NewVmContextQuery", "CheckFeeDelegation"), ("NewVmContextQuery", "Query")] := by
-  decide
+    Gen.HostApi.ctxBuilders = [("NewVmContextQuery", "CheckFeeDelegation"), ("NewVmContextQuery", "Query")] :=
+  ⟨rfl, rfl, rfl⟩
 
 /-- Client queries and client fee-delegation checks (chain/chainservice.go) run on a block state created for
 the occasion (`state.NewBlockState`), which is dropped afterwards; the fee-delegation check inside
@@ -220,8 +221,7 @@ theorem query_call_sites :
     Gen.HostApi.queryCalls =
       [("chain/chainservice.go", "ChainWorker.Receive", "contract.Query", "state.NewBlockState"),
        ("chain/chainservice.go", "ChainWorker.Receive", "contract.CheckFeeDelegation", "state.NewBlockState"),
-       ("chain/chainhandle.go", "executeTx", "contract.CheckFeeDelegation", "parameter")] := by
-  decide
+       ("chain/chainhandle.go", "executeTx", "contract.CheckFeeDelegation", "parameter")] := rfl
 
 /-- In query mode the SQL handle comes from `beginReadOnly`: the branches that test `isQuery` alone are
 exactly these (the `mutQ` sinks `beginTx` / `savepoint` sit in their non-query arms, which is what
@@ -233,7 +233,7 @@ theorem query_only_branches :
     Gen.HostApi.viewOnly = [] ∧
     Gen.HostApi.program.sitesOf (· == .mutQ) =
       [("luaGetDbHandle", "beginTx"), ("luaGetDbHandle", "sqlTx.savepoint")] := by
-  refine ⟨by decide, by decide, by decide +kernel⟩
+  refine ⟨rfl, rfl, by decide +kernel⟩
 
 /-! ## Restoring operations -/
 
@@ -295,15 +295,21 @@ wrappers (`pcall`, `xpcall`, `contract.pcall`) resp. the view bracket hooks.  In
 `luaSetRecoveryPoint` returns 0 (guard, `all_callbacks_ok`), and the wrappers call `luaClearRecovery`
 only with the sequence number it returned. -/
 theorem internal_callbacks :
-    (Gen.HostApi.cCallbackCallers.filter fun x =>
-        x.1 ∈ ["luaClearRecovery", "luaDropEvent", "luaSetRecoveryPoint", "luaViewStart", "luaViewEnd"]) =
+    Gen.HostApi.cInternalCallers =
       [("luaClearRecovery", "modulePcall"), ("luaClearRecovery", "pcall"), ("luaClearRecovery", "xpcall"),
        ("luaDropEvent", "modulePcall"), ("luaDropEvent", "pcall"), ("luaDropEvent", "xpcall"),
        ("luaSetRecoveryPoint", "modulePcall"), ("luaSetRecoveryPoint", "pcall"), ("luaSetRecoveryPoint", "xpcall"),
        ("luaViewEnd", "vm_internal_view_end"), ("luaViewStart", "vm_internal_view_start")] ∧
+    Gen.HostApi.cInternalRoutes =
+      [("contract_lib.pcall", "luaClearRecovery"), ("contract_lib.pcall", "luaDropEvent"),
+       ("contract_lib.pcall", "luaSetRecoveryPoint"),
+       ("_basefuncs.pcall", "luaClearRecovery"), ("_basefuncs.pcall", "luaDropEvent"),
+       ("_basefuncs.pcall", "luaSetRecoveryPoint"),
+       ("_basefuncs.xpcall", "luaClearRecovery"), ("_basefuncs.xpcall", "luaDropEvent"),
+       ("_basefuncs.xpcall", "luaSetRecoveryPoint")] ∧
     Gen.HostApi.cFnPtrWiring =
-      [("lj_internal_view_start", "vm_internal_view_start"), ("lj_internal_view_end", "vm_internal_view_end")] := by
-  constructor <;> decide +kernel
+      [("lj_internal_view_start", "vm_internal_view_start"), ("lj_internal_view_end", "vm_internal_view_end")] :=
+  ⟨rfl, rfl, rfl⟩
 
 /-! ## The C modules -/
 
@@ -319,61 +325,43 @@ theorem c_sql_execution_guarded :
        ("db_lib", "exec", "db_exec", ["luaCheckView"])] := by
   decide +kernel
 
-/-- Every Lua function through which a *mutating* Go callback is reachable, with those callbacks.  A new
-route from Lua to a mutating callback shows up here. -/
-theorem c_routes_to_mutating_callbacks :
-    let mutating := (Gen.HostApi.program.verdicts.filter (·.2 == "guarded")).map (·.1)
-    ((Gen.HostApi.cLuaFns.filter fun f => f.callbacks.any (mutating.contains ·)).map
-        fun f => (f.table, f.luaName, f.callbacks.filter (mutating.contains ·))).eraseDups =
-      [("call_meta", "__call", ["luaCallContract", "luaSendAmount"]),
-       ("deploy_call_meta", "__call", ["luaDeployContract"]),
-       ("contract_lib", "send", ["luaSendAmount"]),
-       ("contract_lib", "event", ["luaEvent"]),
-       ("contract_lib", "stake", ["luaGovernance"]),
-       ("contract_lib", "unstake", ["luaGovernance"]),
-       ("contract_lib", "vote", ["luaGovernance"]),
-       ("contract_lib", "voteDao", ["luaGovernance"]),
-       ("db_lib", "exec", ["luaGetDbHandle"]),
-       ("db_lib", "query", ["luaGetDbHandle"]),
-       ("db_lib", "prepare", ["luaGetDbHandle"]),
-       ("db_lib", "last_insert_rowid", ["luaGetDbHandle"]),
-       ("system_lib_v1", "setItem", ["luaSetDB"]),
-       ("system_lib_v4", "setItem", ["luaSetDB"])] := by
-  decide +kernel
-
 /-! ## Inventories -/
 
 /-- The verdict of every exported callback: `guarded` = a mutating sink is reachable syntactically but not
 in a read-only context, `pure` = none reachable at all.  (Which callbacks mutate is thereby pinned; a callback
 that starts to mutate, or stops, changes this table.) -/
 theorem callback_verdicts :
-    Gen.HostApi.program.verdicts.filter (·.2 != "pure") =
-      [("luaSetDB", "guarded"), ("luaDelDB", "guarded"), ("luaCallContract", "guarded"),
-       ("luaSendAmount", "guarded"), ("luaGetDbHandle", "guarded"), ("luaDeployContract", "guarded"),
-       ("luaEvent", "guarded"), ("luaGovernance", "guarded")] := by
+    Gen.HostApi.program.verdicts.filter (·.2 != .pure) =
+      [("luaSetDB", .guarded), ("luaDelDB", .guarded), ("luaCallContract", .guarded),
+       ("luaSendAmount", .guarded), ("luaGetDbHandle", .guarded), ("luaDeployContract", .guarded),
+       ("luaEvent", .guarded), ("luaGovernance", .guarded)] := by
   decide +kernel
 
 /-- Every exported method of `state.AccountState`, `state.BlockState`, `statedb.ContractState`,
 `statedb.StateDB`, `statedb.ChainStateDB` has a class in the reviewed tables, and no mutating one has a name
 that the extractor treats as harmless on receivers it cannot type. -/
-theorem state_api_classified :
-    Gen.HostApi.stateApi.filter (fun x => x.2.2 ∉ ["ro", "mut", "restore", "txctl", "cache"]) = [] := by
-  decide +kernel
+theorem state_api_classified : Gen.HostApi.stateApiUnclassified = [] := rfl
 
 /-- `//export`ed functions of package `contract` outside the analysed files: the go-sqlite3 trampolines, the
 debugger hooks (build tag `Debug`) and `PermittedCmd`; none receives a VM context. -/
 theorem other_exports_reviewed :
-    Gen.HostApi.otherExports.filter (fun x => x.1 ∉ ["callback.go", "hook_dbg.go", "keyword.go"]) = [] ∧
-    Gen.HostApi.otherExports.length = 22 := by
-  decide
+    Gen.HostApi.otherExports =
+      [("callback.go", "callbackTrampoline"), ("callback.go", "stepTrampoline"), ("callback.go", "doneTrampoline"),
+       ("callback.go", "compareTrampoline"), ("callback.go", "commitHookTrampoline"),
+       ("callback.go", "rollbackHookTrampoline"), ("callback.go", "updateHookTrampoline"),
+       ("callback.go", "authorizerTrampoline"),
+       ("hook_dbg.go", "PrintBreakPoints"), ("hook_dbg.go", "ResetBreakPoints"), ("hook_dbg.go", "ResetWatchPoints"),
+       ("hook_dbg.go", "CGetContractID"), ("hook_dbg.go", "CGetSrc"), ("hook_dbg.go", "CSetBreakPoint"),
+       ("hook_dbg.go", "CDelBreakPoint"), ("hook_dbg.go", "CHasBreakPoint"), ("hook_dbg.go", "CSetWatchPoint"),
+       ("hook_dbg.go", "CDelWatchPoint"), ("hook_dbg.go", "CGetWatchPoint"), ("hook_dbg.go", "CLenWatchPoints"),
+       ("hook_dbg.go", "GetDebuggerCode"),
+       ("keyword.go", "PermittedCmd")] := rfl
 
 /-- Extractor self-test: on the synthetic callbacks of corpus/C20 (guard missing, guard after the sink, guard
 in one branch only, sink in a helper, in a loop, in a `defer`, new unknown mutator, wrong flag polarity, …)
 extractor + checker give exactly the annotated verdicts. -/
 theorem corpus_verdicts :
-    Gen.HostApi.corpus.verdicts.length = Gen.HostApi.corpusExpect.length ∧
-    Gen.HostApi.corpus.verdicts.all (fun x => Gen.HostApi.corpusExpect.lookup x.1 == some x.2) = true ∧
-    30 ≤ Gen.HostApi.corpus.verdicts.length := by
-  refine ⟨by decide +kernel, by decide +kernel, by decide +kernel⟩
+    Gen.HostApi.corpus.verdicts = Gen.HostApi.corpusExpect ∧ 30 ≤ Gen.HostApi.corpusExpect.length := by
+  refine ⟨by decide +kernel, by decide +kernel⟩
 
 end Aergo.Props.C20
